@@ -112,6 +112,79 @@ example : memoryReferences (K := Nat)
     = [⟨"a", 1⟩, ⟨"b", 0⟩] := by
   rw [C13_iterator_eq_preorder]; rfl
 
+
+/-! ### Every way of consuming the iterator, from ANY state (fresh or mid-iteration)
+
+std's adaptors and provided methods (`for_each count last nth skip step_by take peekable max_by_key …`) are
+compositions of `next` and `fold`; the two theorems below say what those two do on the model's stack machine
+from an arbitrary stack, in terms of `pending st` only.  (That std's default implementations are such
+compositions is trusted; that the REAL iterator agrees on every route is what the `c13iter` cases check.) -/
+
+/-- `fold` from any stack state is the left fold over the pending references. -/
+theorem C13_foldFrom_eq_foldl {β : Type} (f : β → MemRef → β) (init : β) (st : List (Expr K)) :
+    foldFrom f init st = (pending st).foldl f init := by
+  induction init, st using foldFrom.induct (f := f) with
+  | case1 init st r st' h ih =>
+    rw [foldFrom]
+    split
+    · rename_i r1 st1 h1
+      rw [h] at h1; cases h1
+      rw [ih, (next_spec st).1 r st' h, List.foldl_cons]
+    · rename_i st1 h1
+      rw [h] at h1; cases h1
+  | case2 init st st' h =>
+    rw [foldFrom]
+    split
+    · rename_i r1 st1 h1
+      rw [h] at h1; cases h1
+    · rw [((next_spec st).2 st' h).1]; rfl
+
+/-- `j` calls of `next` from any stack state yield the first `j` pending references and leave exactly the
+others pending. -/
+theorem C13_nextN_spec (j : Nat) (st : List (Expr K)) :
+    (nextN j st).1 = (pending st).take j ∧ pending (nextN j st).2 = (pending st).drop j := by
+  induction j generalizing st with
+  | zero => simp [nextN]
+  | succ j ih =>
+    rw [nextN]
+    rcases hn : next st with ⟨o, st'⟩
+    cases o with
+    | none =>
+      obtain ⟨hp, hs⟩ := (next_spec st).2 st' hn
+      subst hs
+      rw [hp]
+      exact ⟨by simp, by simp [pending]⟩
+    | some r =>
+      have hp := (next_spec st).1 r st' hn
+      obtain ⟨h1, h2⟩ := ih st'
+      simp [hp, h1, h2]
+
+/-- Mid-iteration, fold-based consumption: after `j` calls of `next` on a fresh iterator over `e`, folding
+the rest is folding `e.addrs.drop j`. -/
+theorem C13_fold_after_nexts {β : Type} (e : Expr K) (j : Nat) (f : β → MemRef → β) (init : β) :
+    foldFrom f init (nextN j [e]).2 = (e.addrs.drop j).foldl f init := by
+  rw [C13_foldFrom_eq_foldl, (C13_nextN_spec j [e]).2]; simp [pending]
+
+/-- Mid-iteration, `next`-based consumption (`collect`, `for` loops). -/
+theorem C13_drain_after_nexts (e : Expr K) (j : Nat) :
+    (nextN j [e]).1 = e.addrs.take j ∧ drain (nextN j [e]).2 = e.addrs.drop j := by
+  rw [drain_eq_pending, (C13_nextN_spec j [e]).2, (C13_nextN_spec j [e]).1]; simp [pending]
+
+/-- `count()` from any state. -/
+theorem C13_count_from (st : List (Expr K)) :
+    foldFrom (fun n _ => n + 1) 0 st = (pending st).length := by
+  rw [C13_foldFrom_eq_foldl]
+  have : ∀ (l : List MemRef) (k : Nat), l.foldl (fun n _ => n + 1) k = k + l.length := by
+    intro l; induction l with
+    | nil => simp
+    | cons a as ih => intro k; simp [ih]; omega
+  simpa using this (pending st) 0
+
+example : foldFrom (K := Nat) (fun acc r => r.index :: acc) []
+    (nextN 1 [.bin (.bin (.bin (.address ⟨"a", 0⟩) .plus (.address ⟨"a", 1⟩)) .star (.address ⟨"b", 2⟩)) .minus
+      (.call .sin (.address ⟨"c", 7⟩))]).2 = [7, 2, 1] := by
+  rw [C13_fold_after_nexts]; rfl
+
 /-! ## 2. Evaluation: errors, success criterion -/
 
 section
